@@ -241,11 +241,11 @@ def line_search(
 
     def phi(alpha: float) -> float:
         """Return the objective function for a steplength of `alpha`"""
-        return sf.fun(x0 + alpha * d)
+        return sf.fun(np.clip(x0 + alpha * d, lb, ub))
 
     def dphi(alpha: float) -> NDArrayFloat:
         """Return the gradient of `phi` with respect to alpha."""
-        return sf.grad(x0 + alpha * d).dot(d)
+        return sf.grad(np.clip(x0 + alpha * d, lb, ub)).dot(d)
 
     task = b"START"
     steplength = None
@@ -295,7 +295,8 @@ def line_search(
 
         if task[:2] == b"FG":
             steplength_0 = steplength
-            f_m1, dphi_m1 = sf.fun_and_grad(x0 + steplength * d)
+            # rounding may push x0 + steplength * d out of the bounds by one ulp
+            f_m1, dphi_m1 = sf.fun_and_grad(np.clip(x0 + steplength * d, lb, ub))
             dphi_m1 = dphi_m1.dot(d)
             if f_m1 < best_f:
                 best_f = f_m1
